@@ -52,6 +52,24 @@ func c14Bytes(toks []string) []byte {
 			case "P":
 				b = protowire.AppendTag(b, 6, protowire.BytesType)
 				b = protowire.AppendBytes(b, protowire.AppendVarint(protowire.AppendVarint(nil, 1), 300))
+			case "P32":
+				b = protowire.AppendTag(b, 10, protowire.BytesType)
+				b = protowire.AppendBytes(b, protowire.AppendFixed32(protowire.AppendFixed32(nil, 10), 0xcafe0001))
+			case "P64":
+				b = protowire.AppendTag(b, 11, protowire.BytesType)
+				b = protowire.AppendBytes(b, protowire.AppendFixed64(protowire.AppendFixed64(nil, 20), 0xcafe000000000002))
+			case "P0":
+				b = protowire.AppendTag(b, 10, protowire.BytesType)
+				b = protowire.AppendBytes(b, nil)
+			case "Pcut":
+				b = protowire.AppendTag(b, 6, protowire.BytesType)
+				b = protowire.AppendBytes(b, append(protowire.AppendVarint(nil, 1), 0xac))
+			case "P32cut":
+				b = protowire.AppendTag(b, 10, protowire.BytesType)
+				b = protowire.AppendBytes(b, append(protowire.AppendFixed32(nil, 10), 0x01, 0x02))
+			case "P64cut":
+				b = protowire.AppendTag(b, 11, protowire.BytesType)
+				b = protowire.AppendBytes(b, append(protowire.AppendFixed64(nil, 20), 0x01, 0x02, 0x03, 0x04))
 			case "Vover":
 				b = protowire.AppendTag(b, 1, protowire.VarintType)
 				b = append(b, 0xff, 0xff, 0xff, 0xff, 0xff, 0xff, 0xff, 0xff, 0xff, 0x7f)
@@ -89,8 +107,8 @@ func c14Bytes(toks []string) []byte {
 }
 
 func c14Opts(maxDepth int) *pwstd.ParseOptions {
-	return &pwstd.ParseOptions{MessageFields: map[int32]bool{5: true}, PackedFields: map[int32]bool{6: true},
-		PackedElementType: map[int32]int32{6: 0}, MaxDepth: maxDepth}
+	return &pwstd.ParseOptions{MessageFields: map[int32]bool{5: true}, PackedFields: map[int32]bool{6: true, 10: true, 11: true},
+		PackedElementType: map[int32]int32{6: pwstd.WireVarint, 10: pwstd.WireFixed32, 11: pwstd.WireFixed64}, MaxDepth: maxDepth}
 }
 
 // c14Flatten renders a parsed field tree as the token stream of Protowire.tla's out variable; wrong values are flagged.
@@ -121,6 +139,21 @@ func c14Flatten(fs []pwstd.Field, out *[]string, bad *[]string) {
 			*out = append(*out, "P")
 			if v, ok := f.Value.([]uint64); !ok || len(v) != 2 || v[0] != 1 || v[1] != 300 {
 				*bad = append(*bad, fmt.Sprintf("P=%v", f.Value))
+			}
+		case 10:
+			v, ok := f.Value.([]uint32)
+			if ok && len(v) == 0 {
+				*out = append(*out, "P0")
+				break
+			}
+			*out = append(*out, "P32")
+			if !ok || len(v) != 2 || v[0] != 10 || v[1] != 0xcafe0001 {
+				*bad = append(*bad, fmt.Sprintf("P32=%v", f.Value))
+			}
+		case 11:
+			*out = append(*out, "P64")
+			if v, ok := f.Value.([]uint64); !ok || len(v) != 2 || v[0] != 20 || v[1] != 0xcafe000000000002 {
+				*bad = append(*bad, fmt.Sprintf("P64=%v", f.Value))
 			}
 		case 5:
 			*out = append(*out, "M(")
@@ -158,7 +191,7 @@ func c14Short(toks []string) string {
 func c14Protowire(c *Ctx, rep *kf.Report) (int, int, bool) {
 	checked, rejects := 0, 0
 	type fam struct{ name, depths string }
-	fams := []fam{{"flat", "{1,2,3}"}, {"chains", "{1,2,3,4,5,64,70}"}, {"nested", c14pick(c, "{2,3}", "{1,2,3,4,64}")}}
+	fams := []fam{{"flat", "{1,2,3}"}, {"packed", "{2,3}"}, {"chains", "{1,2,3,4,5,64,70}"}, {"nested", c14pick(c, "{2,3}", "{1,2,3,4,64}")}}
 	var scriptJobs []Job
 	var scriptRef []c14Verdict
 	for _, f := range fams {
@@ -284,7 +317,7 @@ func phpBytes(b []byte) string {
 }
 
 func c14ProtoScript(data []byte, maxDepth int) string {
-	return fmt.Sprintf("try { $r = Protowire::parse(%s, [\"message_fields\" => [5 => true], \"packed_fields\" => [6 => true], \"packed_element_type\" => [6 => 0], \"max_depth\" => %d]); echo \"\\nK|ok:\", count($r), \"\\n\"; } catch (\\Throwable $e) { echo \"\\nK|rej:\", get_class($e), \"\\n\"; }\n", phpBytes(data), maxDepth)
+	return fmt.Sprintf("try { $r = Protowire::parse(%s, [\"message_fields\" => [5 => true], \"packed_fields\" => [6 => true, 10 => true, 11 => true], \"packed_element_type\" => [6 => 0, 10 => 5, 11 => 1], \"max_depth\" => %d]); echo \"\\nK|ok:\", count($r), \"\\n\"; } catch (\\Throwable $e) { echo \"\\nK|rej:\", get_class($e), \"\\n\"; }\n", phpBytes(data), maxDepth)
 }
 
 // ---------------------------------------------------------------- byte codecs
@@ -597,7 +630,7 @@ func c14SerTokens(b []byte) ([]c14Tok, error) {
 				return err
 			}
 			n, err := strconv.Atoi(ls)
-			if err != nil || p >= len(b) || b[p] != '{' {
+			if err != nil || n < 0 || p >= len(b) || b[p] != '{' {
 				return fmt.Errorf("bad array at %d", p)
 			}
 			p++
@@ -655,10 +688,6 @@ func c14TokMatch(format string, want c14Tok, got c14Tok) bool {
 	case "b":
 		return got.T == "b" && got.V == map[string]string{"true": "1", "false": "0"}[want.V]
 	case "ks":
-		// a numeric string key is an integer key in PHP
-		if _, err := strconv.Atoi(want.V); err == nil && got.T == "ki" {
-			return got.V == want.V
-		}
 		return got.T == "ks" && got.V == c14Key(want.V)
 	}
 	if want.T == "key" {
@@ -849,6 +878,11 @@ func C14(c *Ctx) *kf.Report {
 	if !ok {
 		return rep
 	}
+	n4, ok := c14Mutants(c, rep)
+	if !ok {
+		return rep
+	}
+	n3 += n4
 	rep.Coverage["traces_validated_against_impl"] = n1 + n2 + n3
 	sc, _ := rep.Coverage["protowire_script_cases"].(int)
 	mu, _ := rep.Coverage["json_decoder_mutants"].(int)
@@ -861,7 +895,7 @@ func C14(c *Ctx) *kf.Report {
 	rep.Coverage["distinct_nontrivial"] = rejects + n2 + n3
 	rep.Coverage["protowire_reject_cases"] = rejects
 	rep.Coverage["exhaustive"] = true
-	rep.Coverage["rule"] = "Protowire.tla: every token stream of the flat (<= 3 tokens + tail), nested (messages in messages, <= 2 items) and chains (all group/message mixes to depth 5, pure chains of 62..70) families x max_depth settings is one behaviour of the push-down machine; ByteCodecs.tla: every single byte, every pair over 56 interesting bytes (thorough: all 65536 pairs), triples over 12 bytes; Codec.tla: all scalar classes, all flat containers, nested containers (quick: every 4th; thorough: all + depth 4); every case is replayed on the real functions"
+	rep.Coverage["rule"] = "Protowire.tla: every token stream of the flat (<= 3 tokens + tail), nested (messages in messages, <= 2 items) and chains (all group/message mixes to depth 5, pure chains of 62..70) families x max_depth settings is one behaviour of the push-down machine; ByteCodecs.tla: every single byte, every pair over 56 interesting bytes (thorough: all 65536 pairs), triples over 12 bytes; Codec.tla: all scalar classes, all flat containers, nested containers (quick: every 4th; thorough: all + depth 4); family mutants: the JSON and serialize token streams of 87 values damaged by one token-level mutation (truncate, drop, duplicate, extra trailing token, swapped bracket / count / key kind / string length), rendered canonically and given to json_decode (assoc and object mode) and unserialize, which must accept exactly what the spec's recognizers JsonOK / SerOK accept (cross-checked with encoding/json.Valid and the harness's serialize reader); every case is replayed on the real functions"
 	return rep
 }
 
@@ -876,4 +910,220 @@ func c14LowerEscapes(s string) string {
 		}
 	}
 	return string(b)
+}
+
+// ---------------------------------------------------------------- decoder mutants (Codec.tla, family "mutants")
+
+type c14Mut struct {
+	Format string
+	Op     string
+	Ts     []c14Tok
+	Ok     bool
+}
+
+func c14RenderJSON(ts []c14Tok) string {
+	var sb strings.Builder
+	prevEnd := false
+	q := func(x string) string { b, _ := json.Marshal(x); return string(b) }
+	for _, t := range ts {
+		closer := t.T == "]" || t.T == "}"
+		if prevEnd && !closer {
+			sb.WriteByte(',')
+		}
+		switch t.T {
+		case "[", "{":
+			sb.WriteString(t.T)
+			prevEnd = false
+		case "]", "}":
+			sb.WriteString(t.T)
+			prevEnd = true
+		case "key":
+			sb.WriteString(q(c14Key(t.V)) + ":")
+			prevEnd = false
+		case "int":
+			sb.WriteString(c14Ints[t.V])
+			prevEnd = true
+		case "str":
+			sb.WriteString(q(c14Strs[t.V]))
+			prevEnd = true
+		default:
+			sb.WriteString(t.V)
+			prevEnd = true
+		}
+	}
+	return sb.String()
+}
+
+func c14RenderSer(ts []c14Tok) string {
+	var sb strings.Builder
+	str := func(x string, delta int) { fmt.Fprintf(&sb, "s:%d:\"%s\";", len(x)+delta, x) }
+	for _, t := range ts {
+		switch t.T {
+		case "i":
+			fmt.Fprintf(&sb, "i:%s;", c14Ints[t.V])
+		case "ki":
+			fmt.Fprintf(&sb, "i:%s;", t.V)
+		case "s":
+			str(c14Strs[t.V], 0)
+		case "s!":
+			str(c14Strs[t.V], 1)
+		case "ks":
+			str(c14Key(t.V), 0)
+		case "ks!":
+			str(c14Key(t.V), 1)
+		case "kN", "N":
+			sb.WriteString("N;")
+		case "kd":
+			sb.WriteString("d:1.5;")
+		case "kb":
+			sb.WriteString("b:1;")
+		case "a":
+			n := t.V
+			if n == "huge" {
+				n = "9223372036854775807"
+			}
+			fmt.Fprintf(&sb, "a:%s:{", n)
+		default:
+			sb.WriteString(t.T) // } ]
+		}
+	}
+	return sb.String()
+}
+
+// c14Mutants: decoders accept exactly the well-formed inputs, on token-level mutants decided by Codec.tla.
+func c14Mutants(c *Ctx, rep *kf.Report) (int, bool) {
+	res := runTLC(rep, tlc.Run{SpecDir: c.SpecDir(), Module: "Codec", Cfg: "Codec.cfg", Workers: 4, Timeout: 10 * time.Minute, Consts: map[string]string{"FAMILY": "mutants"}})
+	if res == nil {
+		return 0, false
+	}
+	addTLC(rep, res)
+	if res.Violated != "" {
+		rep.Infraf("spec Codec(mutants): %s violated\n%s", res.Violated, res.Tail(20))
+		return 0, false
+	}
+	type mcase struct {
+		m    c14Mut
+		text string
+	}
+	var cases []mcase
+	seen := map[string]bool{}
+	disagree := 0
+	for _, raw := range res.Tagged["MUT"] {
+		var m c14Mut
+		must(json.Unmarshal(raw, &m))
+		var text string
+		var oracle bool
+		if m.Format == "json" {
+			text = c14RenderJSON(m.Ts)
+			oracle = json.Valid([]byte(text))
+		} else {
+			text = c14RenderSer(m.Ts)
+			_, err := c14SerTokens([]byte(text))
+			oracle = err == nil
+		}
+		if oracle != m.Ok {
+			// the spec's recognizer and the reference reader must agree on every rendered text
+			disagree++
+			if disagree <= 3 {
+				rep.Infraf("Codec mutants: spec says ok=%v, reference reader says %v for %s text %q", m.Ok, oracle, m.Format, text)
+			}
+			continue
+		}
+		if seen[m.Format+text] {
+			continue
+		}
+		seen[m.Format+text] = true
+		cases = append(cases, mcase{m, text})
+	}
+	if disagree > 0 {
+		return 0, false
+	}
+	var jobs []Job
+	const per = 100
+	for i := 0; i < len(cases); i += per {
+		var sb strings.Builder
+		for j := i; j < i+per && j < len(cases); j++ {
+			lit := phpBytes([]byte(cases[j].text))
+			if cases[j].m.Format == "json" {
+				fmt.Fprintf(&sb, "try { $d = json_decode(%s, true); $e = json_decode(%s, false); echo \"Q%d|\", (($d === null) ? \"rej\" : \"acc\"), \",\", (($e === null) ? \"rej\" : \"acc\"), \"\\n\"; } catch (\\Throwable $x) { echo \"Q%d|throw\\n\"; }\n", lit, lit, j, j)
+			} else {
+				fmt.Fprintf(&sb, "try { $u = unserialize(%s); echo \"Q%d|\", (($u === false) ? \"rej\" : \"acc:\" . bin2hex(serialize($u))), \"\\n\"; } catch (\\Throwable $x) { echo \"Q%d|throw\\n\"; }\n", lit, j, j)
+			}
+		}
+		jobs = append(jobs, Job{Src: sb.String()})
+	}
+	rs, err := RunJobs(c.Self, jobs, 0, 30*time.Second)
+	if err != nil {
+		rep.Infraf("pool: %v", err)
+		return 0, false
+	}
+	checked, malformed := 0, 0
+	rerun := func(j int) JobResult { // one case alone, to name the input that crashes a batch
+		one, err := RunJobs(c.Self, []Job{{Src: strings.Split(jobs[j/per].Src, "\n")[j%per] + "\n"}}, 0, 30*time.Second)
+		if err != nil || len(one) == 0 {
+			return JobResult{}
+		}
+		return one[0]
+	}
+	for ji, r := range rs {
+		got := map[string]string{}
+		for _, l := range strings.Split(r.Out, "\n") {
+			if f := strings.SplitN(l, "|", 2); len(f) == 2 {
+				got[f[0]] = f[1]
+			}
+		}
+		for j := ji * per; j < (ji+1)*per && j < len(cases); j++ {
+			m, text := cases[j].m, cases[j].text
+			checked++
+			if !m.Ok {
+				malformed++
+			}
+			swapped := ""
+			if m.Op == "swap" || m.Op == "extra" {
+				for _, t := range m.Ts {
+					if strings.ContainsAny(t.T, "!") || t.T == "kN" || t.T == "kd" || t.T == "kb" || (t.T == "a" && (t.V == "huge" || t.V == "-1")) {
+						swapped = "/tok=" + strings.ReplaceAll(t.T+t.V, "!", "-wrong-length")
+						if t.T != "a" {
+							swapped = "/tok=" + strings.ReplaceAll(t.T, "!", "-wrong-length")
+						}
+					}
+				}
+			}
+			id := fmt.Sprintf("C14/%s/decoder/op=%s%s", m.Format, m.Op, swapped)
+			o, have := got[fmt.Sprintf("Q%d", j)]
+			if !have || r.Hang || r.Died || r.Panic != "" {
+				// find out whether this very input is the one that takes the interpreter down
+				rr := rerun(j)
+				if rr.Hang || rr.Died || rr.Panic != "" {
+					rep.Add(kf.Mismatch{ID: id + "/kind=crash", Expected: "accept or reject, no crash", Observed: map[string]any{"hang": rr.Hang, "died": rr.Died, "panic": tailStr(rr.Panic, 300), "stderr": tailStr(rr.Stderr, 300)}, ObsKey: "crash", Input: text})
+					continue
+				}
+				o = ""
+				for _, l := range strings.Split(rr.Out, "\n") {
+					if f := strings.SplitN(l, "|", 2); len(f) == 2 {
+						o = f[1]
+					}
+				}
+			}
+			modes := []string{o}
+			names := []string{""}
+			if m.Format == "json" && strings.Contains(o, ",") {
+				modes = strings.Split(o, ",")
+				names = []string{"/mode=assoc", "/mode=object"}
+			}
+			for k, mo := range modes {
+				acc := strings.HasPrefix(mo, "acc")
+				if acc && !m.Ok {
+					rep.Add(kf.Mismatch{ID: id + names[k] + "/kind=malformed-accepted", Expected: "rejected (not a text of the format)", Observed: mo, ObsKey: "accepted", Input: text})
+				} else if !acc && m.Ok {
+					rep.Add(kf.Mismatch{ID: id + names[k] + "/kind=well-formed-rejected", Expected: "accepted", Observed: mo, ObsKey: "rejected", Input: text})
+				} else if acc && m.Format == "ser" && mo != "acc:"+hex.EncodeToString([]byte(text)) {
+					rep.Add(kf.Mismatch{ID: id + "/kind=not-every-byte-accounted", Expected: "serialize(unserialize(x)) === x for an accepted x", Observed: mo, ObsKey: "reserialize-differs", Input: text})
+				}
+			}
+		}
+	}
+	rep.Coverage["decoder_token_mutants"] = checked
+	rep.Coverage["decoder_token_mutants_malformed"] = malformed
+	return checked, true
 }
